@@ -54,6 +54,7 @@ typedef struct Task {
 	pthread_t th;
 	uint8_t *stack;
 	int prio;                /* PCT priority (threads scenario) */
+	WaitPred retry_pred; void *retry_arg;   /* set when a nonblocking call just returned EAGAIN */
 	uint64_t quanta;
 } Task;
 
@@ -98,7 +99,7 @@ typedef struct Sim {
 	int quiesced;                /* quiescence handler ran */
 	int step_capped;
 	int (*next_event)(int64_t *at);     /* earliest pending timed event > now */
-	void (*on_quiesce)(void);
+	int (*on_quiesce)(void);            /* returns 1 if it changed something that may unblock a task */
 	void (*on_switch)(int from_task);   /* monitors: called when a task quantum ends */
 	FILE *log;                   /* optional full event log */
 	/* reach probes */
@@ -117,6 +118,7 @@ void sim_trace(int kind, int64_t a, int64_t b);
 void sim_yield(int kind, int64_t a, int64_t b);  /* scheduling point */
 int  sim_block(WaitPred pred, void *arg);        /* returns 0 ok, -1 aborted */
 void sim_sleep(int64_t ns);
+void sim_retry_wait(int64_t ns);                /* sleep of an EAGAIN retry loop: wakes when the awaited condition can hold */
 int64_t sim_node_time(int node);                 /* seconds, node-local clock */
 void sim_abort_run(void);
 void sim_watchdog_start(void);
@@ -148,6 +150,7 @@ typedef struct RecInfo {       /* one TLS record as seen on the wire */
 	size_t off, len;           /* offset in transcript, total length incl. header */
 	uint8_t type; uint16_t ver;
 	uint64_t step;             /* sim step when completed by the sender */
+	uint8_t in_hs;             /* sender had not yet returned from its handshake */
 } RecInfo;
 
 typedef struct Pipe {
